@@ -41,6 +41,9 @@ class CtxMgrNone:
 EXTERN_CONSTS = {"os.name": "posix", "os.sep": "/", "posixpath.sep": "/", "os.path.sep": "/", "errno.ENOENT": 2, "stat.S_IWRITE": 128, "stat.S_IREAD": 256, "stat.S_IEXEC": 64, "stat.S_IWUSR": 128, "stat.S_IXUSR": 64}
 
 
+EXTERN_SYMBOLIC: dict = {}  # dotted name -> Ty, filled in below (needs the type constructors)
+
+
 class ExternMethod:
     def __init__(self, selfv, name, self_expr=None):
         self.selfv = selfv
@@ -180,6 +183,11 @@ class CallMixin:
             return self.wrap_def(r)
         if isinstance(obj, Extern):
             dotted = obj.dotted + "." + name
+            if dotted in EXTERN_SYMBOLIC:
+                # a constant of an external module whose value is not modelled: one uninterpreted constant of the declared sort
+                ty = EXTERN_SYMBOLIC[dotted]
+                self.res.assumed_used.add(f"const {dotted}: uninterpreted {ty.name}")
+                return SV(z3.Const("ext_" + dotted.replace(".", "_"), ty.sort()), ty)
             if dotted in EXTERN_CONSTS:
                 self.res.assumed_used.add(f"const {dotted} = {EXTERN_CONSTS[dotted]!r}")
                 return EXTERN_CONSTS[dotted]
@@ -336,6 +344,8 @@ class CallMixin:
             return self.call_extern("ext:" + f.dotted, args, kwargs, node, None)
         if callable(f) and getattr(f, "_pyvc_builtin", False):
             return f(self, args, kwargs, node)
+        if type(f).__name__ == "DynAttr":
+            return self.call_extern(f"ext:{f.obj.ty.cls}.<dynamic>", [f.obj, f.name] + args, kwargs, node, None)
         if isinstance(f, SV) and hasattr(f.ty, "arg"):
             if len(args) != 1 or kwargs:
                 raise Unsupported("symbolic function arity")
